@@ -149,6 +149,10 @@ class Runner:
                         for j in range(n):
                             if j != i and not value_depends_on(kinds, reads, j, i) and D.state_dependent(kinds, reads, j):
                                 cs.append((kinds, reads, place, (('home', i),), ('var', j), None, 0))
+                                # the same with unrelated equations next to it (a constant, a computed constant, an algebraic variable
+                                # that only computeVariables has to compute), listed last and listed first
+                                cs.append((kinds, reads, place, (('home', i),), ('var', j), None, {'pad': 1}))
+                                cs.append((kinds, reads, place, (('home', i),), ('var', j), None, {'pad': 2}))
                                 for (jj, c) in [(jj, c) for (jj, c) in D.Layout(kinds, reads, place).needed_twins() if jj == j]:
                                     for pc in (False, True):
                                         cs.append((kinds, reads, place, (('home', i),), ('vartwin', j, c), None, {'perm_comp': pc}))
